@@ -83,8 +83,22 @@ int _skinny_has_vec256(void)
     uint32_t ebx = 0;
     uint32_t ecx = 0;
     uint32_t edx = 0;
-    __cpuid(7, eax, ebx, ecx, edx);
-    detected = (ebx & (1 << 5)) != 0;
+    if (__get_cpuid_max(0, 0) >= 7) {
+        /* The OS must have enabled saving of the YMM registers */
+        __cpuid(1, eax, ebx, ecx, edx);
+        if ((ecx & (1 << 27)) != 0) {
+            uint32_t xcr0_lo = 0;
+            uint32_t xcr0_hi = 0;
+            __asm__ __volatile__ ("xgetbv"
+                                  : "=a" (xcr0_lo), "=d" (xcr0_hi)
+                                  : "c" (0));
+            if ((xcr0_lo & 0x06) == 0x06) {
+                /* AVX2 is reported in leaf 7, sub-leaf 0 */
+                __cpuid_count(7, 0, eax, ebx, ecx, edx);
+                detected = (ebx & (1 << 5)) != 0;
+            }
+        }
+    }
 #endif
 #endif
 #ifdef RWEATHER_SKINNY_C_VERIF
